@@ -10,6 +10,12 @@ package main
 //                                                        — for each method whose name starts with ThenWith, the
 //                                                          first operand of its (only) append: the receiver
 //                                                          itself, or `other "<src>"`
+//         FpgoVerif.Gen.sortBuilderThenWithReturns : List (String × List String)
+//                                                        — per ThenWith… method the source of every returned
+//                                                          expression that is NOT the result of that append (the
+//                                                          variable it was assigned to, or the call itself): a
+//                                                          return path that hands out something else, e.g. the
+//                                                          caller's argument slice, shows up here
 
 import (
 	"bytes"
@@ -37,7 +43,10 @@ func c19Gen(repo string) (string, error) {
 		return "", err
 	}
 	init := fmt.Sprintf(".untranslatable %q", "NewSortDescriptorsBuilder not found")
-	type tw struct{ name, target string }
+	type tw struct {
+		name, target string
+		otherReturns   []string
+	}
 	var tws []tw
 	for _, d := range f.Decls {
 		fd, ok := d.(*ast.FuncDecl)
@@ -96,7 +105,38 @@ func c19Gen(repo string) (string, error) {
 					target = fmt.Sprintf(".other %q", c19Src(fset, appends[0].Args[0]))
 				}
 			}
-			tws = append(tws, tw{fd.Name.Name, target})
+			// every return must hand out the result of the append
+			resultVar := ""
+			ast.Inspect(fd.Body, func(n ast.Node) bool {
+				if as, ok := n.(*ast.AssignStmt); ok && len(as.Lhs) == 1 && len(as.Rhs) == 1 && len(appends) == 1 && as.Rhs[0] == ast.Expr(appends[0]) {
+					if id, ok := as.Lhs[0].(*ast.Ident); ok {
+						resultVar = id.Name
+					}
+				}
+				return true
+			})
+			var others []string
+			ast.Inspect(fd.Body, func(n ast.Node) bool {
+				if _, ok := n.(*ast.FuncLit); ok {
+					return false
+				}
+				if rs, ok := n.(*ast.ReturnStmt); ok {
+					okRet := false
+					if len(rs.Results) == 1 {
+						if id, ok := rs.Results[0].(*ast.Ident); ok && resultVar != "" && id.Name == resultVar {
+							okRet = true
+						}
+						if len(appends) == 1 && rs.Results[0] == ast.Expr(appends[0]) {
+							okRet = true
+						}
+					}
+					if !okRet {
+						others = append(others, c19Src(fset, rs))
+					}
+				}
+				return true
+			})
+			tws = append(tws, tw{fd.Name.Name, target, others})
 		}
 	}
 	sort.Slice(tws, func(i, j int) bool { return tws[i].name < tws[j].name })
@@ -114,6 +154,19 @@ func c19Gen(repo string) (string, error) {
 			sep = ""
 		}
 		fmt.Fprintf(&b, "  (%q, %s)%s\n", t.name, t.target, sep)
+	}
+	b.WriteString("]\n\n/-- returned expressions of every `ThenWith…` method that are not the result of its `append` -/\n")
+	b.WriteString("def sortBuilderThenWithReturns : List (String × List String) := [\n")
+	for i, t := range tws {
+		sep := ","
+		if i == len(tws)-1 {
+			sep = ""
+		}
+		qs := make([]string, len(t.otherReturns))
+		for j, o := range t.otherReturns {
+			qs[j] = strconv.Quote(o)
+		}
+		fmt.Fprintf(&b, "  (%q, [%s])%s\n", t.name, strings.Join(qs, ", "), sep)
 	}
 	b.WriteString("]\n\nend FpgoVerif.Gen\n")
 	return b.String(), nil
